@@ -97,7 +97,9 @@ impl Topo {
     /// automatic interface ids (unique per AS, non-zero)
     fn pca(&mut self, a: u64, b: u64) { let (x, y) = (self.nif(a), self.nif(b)); self.pcx(a, x, b, y); }
     fn cla(&mut self, a: u64, b: u64) { let (x, y) = (self.nif(a), self.nif(b)); self.clx(a, x, b, y); }
-    fn pla(&mut self, a: u64, b: u64) { let (x, y) = (self.nif(a), self.nif(b)); self.plx(a, x, b, y); }
+    /// peering interfaces are numbered from 101 (so that a peer hop field never looks like a
+    /// regular hop field of some other AS: hypothesis `peer_sig_distinctb` of combine_sorted)
+    fn pla(&mut self, a: u64, b: u64) { let (x, y) = (self.nif(a) + 100, self.nif(b) + 100); self.plx(a, x, b, y); }
     fn as_mtu(x: u64) -> u32 { 1400 + (x % 13) as u32 * 50 }
 }
 
